@@ -258,6 +258,9 @@ type sysOutcome struct {
 	reports  [][]doubles.Report
 	returned []bool
 	panicked bool
+	// a second, undisturbed request served by the same nodes afterwards: -1 not run (fewer honest
+	// members than the threshold), 0 its submitter made no report, 1 served
+	second int
 }
 
 func runQuerySystem(rng *hx.Rng, n int, lastRand, reqID, seed *big.Int, pType uint32, byz map[int]byzKind,
@@ -448,6 +451,56 @@ func runQuerySystemWith(rng *hx.Rng, n int, lastRand, reqID, seed *big.Int, pTyp
 	wg.Wait()
 	for i := 0; i < n; i++ {
 		out.reports[i] = chains[i].Snapshot()
+	}
+	// the nodes go on to serve the next request (system randomness, the same submitter when it is honest,
+	// only the honest members take part, nobody interferes)
+	out.second = -1
+	var hon []int
+	for i := 0; i < n; i++ {
+		if nodes[i] != nil {
+			hon = append(hon, i)
+		}
+	}
+	if len(hon) >= t && !out.panicked {
+		sub2 := hon[0]
+		if nodes[subIdx] != nil {
+			sub2 = subIdx // the member whose collector served the first request
+		}
+		lastRand2 := big.NewInt(int64(n*1000003 + sub2))
+		reqID2 := new(big.Int).Add(reqID, big.NewInt(1))
+		before := len(chains[sub2].Snapshot())
+		var wg2 sync.WaitGroup
+		for _, i := range hon {
+			wg2.Add(1)
+			go func(i int) {
+				defer wg2.Done()
+				defer func() {
+					if r := recover(); r != nil {
+						mu.Lock()
+						out.panicked = true
+						hx.LastPanic = fmt.Sprint(r)
+						mu.Unlock()
+					}
+				}()
+				sec := &share.PriShare{I: i, V: Sc(Bn.G2(), refEval(coeffs, i, BnQ), BnQ)}
+				done := make(chan struct{})
+				go func() {
+					defer close(done)
+					nodes[i].VerifHandleQuery(ids, pub, sec, "g1", new(big.Int).Set(reqID2), new(big.Int).Set(lastRand2), big.NewInt(1), "", "", uint32(onchain.TrafficSystemRandom))
+				}()
+				select {
+				case <-done:
+				case <-time.After(deadline):
+				}
+			}(i)
+		}
+		wg2.Wait()
+		out.second = 0
+		if len(chains[sub2].Snapshot()) == before+1 {
+			out.second = 1
+		}
+	}
+	for i := 0; i < n; i++ {
 		if nodes[i] != nil {
 			nodes[i].VerifCancel()
 		}
@@ -549,6 +602,9 @@ func genC01System(rng *hx.Rng, tier string, w *hx.Writer) {
 							oracle = hx.Fail("invalid-report", "the reported randomness input is not the 32-byte last randomness")
 						}
 					}
+				}
+				if oracle == "ok" && o.second == 0 {
+					oracle = hx.Fail("next-request-not-served", fmt.Sprintf("the request was served, but the next one - handled by the same %d honest members with nobody interfering - was never reported by its submitter", n-len(byz)))
 				}
 				tags := []string{"system", fmt.Sprintf("n%d", n), "sched-" + sched, "nt"}
 				for _, nm := range names {
